@@ -128,8 +128,9 @@ impl<'a> RichStructure<'a> {
 	pub fn encode(&self, records: &[RichRecord], dest: &mut [u32]) -> result::Result<usize, usize> {
 		let xor_key = Self::_checksum(self.dos_stub, records.iter().cloned());
 		let n = records.len();
-		let total_size = ((xor_key / 32) % 3 + n as u32) * 8 + 0x20;
-		let total_len = (total_size / 4) as usize;
+		// Computed in usize, in u32 the size overflows from 2^29 - 6 records on
+		let total_size = (((xor_key / 32) % 3) as usize + n) * 8 + 0x20;
+		let total_len = total_size / 4;
 		if dest.len() < n * 2 + 6 {
 			Err(total_len)
 		}
